@@ -326,7 +326,7 @@ class Initialization:
         metadata = pd.DataFrame.from_dict(metadata, orient="index")
 
         metadata.to_excel(writer, sheet_name="Initialization", startcol=0, startrow=0, index=True, header=False)
-        values.to_excel(writer, sheet_name="Initialization", startcol=0, startrow=len(metadata) + 1, index=True, header=False)
+        values.to_excel(writer, sheet_name="Initialization", startcol=0, startrow=len(metadata) + 1, index=True, header=False, merge_cells=False)  # nb. merged index cells would be read back as missing compartment names
 
     def __repr__(self):
         return sc.prepr(self)
